@@ -34,8 +34,9 @@ SegQuick == ArcSecs(0, 0, 0, 19) \cup ArcSecs(1, 1, 0, 1) \cup ArcMins(0, 29) \c
             \cup MinCarry({0, 1, 179}, {0, 29, 58}) \cup DecMinCarryM({0, 12}, {0, 58})
             \cup NearZero \cup RandomSegs(8, 100)
 
-SegThorough == ArcSecs(0, 1, 0, 59) \cup ArcMins(0, 719) \cup WholeDegrees \cup Ends
+SegThorough == ArcSecs(0, 9, 0, 59) \cup ArcSecs(179, 180, 0, 59) \cup ArcMins(0, 719) \cup WholeDegrees \cup Ends
                \cup DegCarry(0..719) \cup DecMinCarry(0..719)
-               \cup MinCarry({0, 1, 59, 89, 179, 359}, 0..58) \cup DecMinCarryM({0, 1, 12, 180}, 0..58)
-               \cup NearZero \cup RandomSegs(16, 1000)
+               \cup MinCarry({0, 1, 2, 59, 89, 90, 179, 180, 359, 360, 539, 719}, 0..58)
+               \cup DecMinCarryM({0, 1, 12, 89, 180, 359}, 0..58)
+               \cup NearZero \cup RandomSegs(16, 4000)
 =============================================================================
